@@ -1125,6 +1125,31 @@ func (t *btr) assign(s *ast.AssignStmt) string {
 			}
 		}
 	}
+	// inline arms: character sets, cursor style
+	if s.Tok == token.ASSIGN && len(t.loops) == 0 {
+		l, r := t.src(lhs), t.src(rhs)
+		gsets := map[string]int{"g0": 0, "g1": 1, "g2": 2, "g3": 3}
+		switch {
+		case l == "vt.charsets.singleShift" && (r == "true" || r == "false"):
+			return "(.setSS " + r + ")"
+		case l == "vt.charsets.selected":
+			if k, ok := gsets[r]; ok {
+				return fmt.Sprintf("(.setSel %d)", k)
+			}
+		case strings.HasPrefix(l, "vt.charsets.designations[") && strings.HasSuffix(l, "]"):
+			k, ok := gsets[l[len("vt.charsets.designations["):len(l)-1]]
+			v, ok2 := map[string]int{"ascii": 0, "decSpecialAndLineDrawing": 1}[r]
+			if ok && ok2 {
+				return fmt.Sprintf("(.setDesig %d %d)", k, v)
+			}
+		case l == "vt.cursor.style":
+			if c, ok := rhs.(*ast.CallExpr); ok && t.src(c.Fun) == "vaxis.CursorStyle" && len(c.Args) == 1 {
+				if x, ok := t.expr(c.Args[0]); ok {
+					return "(.setShape " + x + ")"
+				}
+			}
+		}
+	}
 	// pen := vt.cursor.Style ... vt.cursor.Style = pen (function level only; the local is never assigned again:
 	// any other statement that mentions it is outside the language)
 	if len(t.loops) == 0 && t.tabVar == "" && t.tabIdx == "" {
@@ -1785,16 +1810,34 @@ func genBodies(c *ex.Ctx) {
 		}
 		emit(sp.fn, t, body)
 	}
-	// the two inline arms of csi() that contain code: "S" (SU) and "T" (SD)
-	if f := files["csi.go"]; f != nil {
-		if fd := ex.FindFunc(f, "Model", "csi"); fd != nil {
-			sw := findSwitch(fd, "csi", c)
-			for _, want := range []struct{ label, name string }{{"\"S\"", "csi_su"}, {"\"T\"", "csi_sd"}} {
-				t := newTr(c)
-				body := ""
-				t.pmName = "params" // csi(csi string, params [][]int)
-				found := false
-				if sw != nil {
+	// inline arms of the dispatchers that contain code
+	type inl struct{ file, fn, tag, label, name string }
+	inlines := []inl{
+		{"csi.go", "csi", "csi", "\"S\"", "csi_su"}, {"csi.go", "csi", "csi", "\"T\"", "csi_sd"},
+		{"csi.go", "csi", "csi", "\" q\"", "csi_arm_2071"},
+		{"esc.go", "esc", "esc", "\"N\"", "esc_arm_4e"}, {"esc.go", "esc", "esc", "\"O\"", "esc_arm_4f"},
+		{"esc.go", "esc", "esc", "\"=\"", "esc_arm_3d"}, {"esc.go", "esc", "esc", "\">\"", "esc_arm_3e"},
+		{"esc.go", "esc", "esc", "\"(0\"", "esc_arm_2830"}, {"esc.go", "esc", "esc", "\")0\"", "esc_arm_2930"},
+		{"esc.go", "esc", "esc", "\"*0\"", "esc_arm_2a30"}, {"esc.go", "esc", "esc", "\"+0\"", "esc_arm_2b30"},
+		{"esc.go", "esc", "esc", "\"(B\"", "esc_arm_2842"}, {"esc.go", "esc", "esc", "\")B\"", "esc_arm_2942"},
+		{"esc.go", "esc", "esc", "\"*B\"", "esc_arm_2a42"}, {"esc.go", "esc", "esc", "\"+B\"", "esc_arm_2b42"},
+		{"c0.go", "c0", "r", "0x0E", "c0_arm_0e"}, {"c0.go", "c0", "r", "0x0F", "c0_arm_0f"},
+	}
+	for _, want := range inlines {
+		f, ok := files[want.file]
+		if !ok {
+			f = c.Parse("widgets/term/" + want.file)
+			files[want.file] = f
+		}
+		t := newTr(c)
+		body := ""
+		found := false
+		if f != nil {
+			if fd := ex.FindFunc(f, "Model", want.fn); fd != nil {
+				if want.fn == "csi" {
+					t.pmName = "params" // csi(csi string, params [][]int)
+				}
+				if sw := findSwitch(fd, want.tag, c); sw != nil {
 					for _, st := range sw.Body.List {
 						cc := st.(*ast.CaseClause)
 						for _, l := range cc.List {
@@ -1805,13 +1848,13 @@ func genBodies(c *ex.Ctx) {
 						}
 					}
 				}
-				if !found {
-					t.unknown = 1
-					body = "(.unknown \"arm not found\")"
-				}
-				emit(want.name, t, body)
 			}
 		}
+		if !found {
+			t.unknown = 1
+			body = "(.unknown \"arm not found\")"
+		}
+		emit(want.name, t, body)
 	}
 	// cutString (osc.go) is a primitive of the language (`Stmt.cut`, meaning `cutSemi`): its source text is a generated fact
 	cutSrc := "not found"
